@@ -946,7 +946,7 @@ def gen_broken(rng):
     """malformed / unsupported inputs: every outcome class (ok / err kind / panic site)"""
     terms = base_terms(3)
     T = lambda n: Assign(Ref(("n", n)))
-    k = rng.randrange(20)
+    k = rng.randrange(21)
     big = rng.choice(["4294967296", "99999999999", "18446744073709551616", "00004294967296"])
     if k == 0:      # undefined symbol
         rules = [Rule("S", [Alt([T("Ta"), T(rng.choice(["Nope", "s", "Ta2"]))])])]
@@ -988,8 +988,33 @@ def gen_broken(rng):
                                  T("Tb")])])]
     elif k == 8:    # several modifiers
         rules = [Rule("S", [Alt([Assign(Ref(("n", "Ta"), (rng.choice(["*", "+", "?"]), ["Tb", "Tc"])))])])]
-    elif k == 9:    # STOP in a production
-        rules = [Rule("S", [Alt([T("Ta"), T("STOP")])])]
+    elif k == 9:    # STOP in a production: plain, named, under sugar, as separator; order w.r.t. other diagnostics
+        v = rng.randrange(9)
+        stop = T("STOP")
+        if v == 1:
+            stop = Assign(Ref(("n", "STOP")), rng.choice("pb"), "x")
+        elif v == 2:
+            stop = Assign(Ref(("n", "STOP"), (rng.choice(["*", "+", "?"]), None)))
+        elif v == 3:
+            stop = Assign(Ref(("n", "Ta"), (rng.choice(["*", "+"]), ["STOP"])))
+        elif v == 4:
+            stop = Assign(Ref(("n", "STOP"), ("+", ["Tb"])), "p", "x")
+        asg = [T("Ta"), stop]
+        if v == 5:      # an undefined name before / after: the first in rhs order is reported
+            asg = rng.choice([[T("Nope"), T("STOP")], [T("STOP"), T("Nope")]])
+        rules = [Rule("S", [Alt(asg)])]
+        if v == 6:      # undefined inline strings are reported before any name
+            rules = [Rule("S", [Alt([T("STOP"), T("Ta")])]), Rule("B", [Alt([Assign(Ref(("s", "zz")))])])]
+        elif v == 7:    # only an unreachable rule refers to STOP; an earlier production has an unknown name
+            rules = [Rule("S", [Alt([T("Ta")])]), Rule("U", [Alt([T("Tb"), T("STOP")])])]
+            if rng.random() < 0.5:
+                rules[0].alts[0].assigns.append(T("Nope"))
+        elif v == 8:    # a rule / terminal named STOP
+            if rng.random() < 0.5:
+                rules = [Rule("S", [Alt([T("Ta")])]), Rule("STOP", [Alt([T("Tb")])])]
+            else:
+                terms = terms + [TermRule("STOP", ("S", "s"))]
+                rules = [Rule("S", [Alt([T("Ta"), T("STOP")])])]
     elif k == 10:   # named EMPTY / EMPTY as separator / sugar on EMPTY
         v = rng.randrange(5)
         if v == 0:
@@ -1026,8 +1051,31 @@ def gen_broken(rng):
     elif k == 18:   # unreachable rules and terminals
         rules = [Rule("S", [Alt([T("Ta")])]), Rule("U", [Alt([T("Tb"), Assign(Ref(("n", "V"), ("?", None)))])]),
                  Rule("V", [Alt([T("Tc")])])]
-    else:           # modifiers on ?
+    elif k == 19:   # modifiers on ?
         rules = [Rule("S", [Alt([Assign(Ref(("n", "Ta"), ("?", ["Tb"]))), Assign(Ref(("n", "Ta"), ("?", None)))])])]
+    else:           # production kinds that are no Rust identifiers: own, inherited, as string; order of diagnostics
+        bad = rng.choice(["A.b", "fn", "type", "_", "x.y.z", "Self"])
+        kind = ("K", bad) if rng.random() < 0.7 else ("u", "kind", ("s", rng.choice(["x y", "1a", "", "a-b", bad])))
+        v = rng.randrange(8)
+        a0 = Alt([T("Ta")], [("i", "5"), kind, ("k", "left")])
+        rules = [Rule("S", [a0])]
+        if v == 1:      # inherited from the rule; one alternative overrides it with a good kind
+            rules = [Rule("S", [Alt([T("Tb")], [("K", "Good")]), Alt([T("Ta")])], [kind])]
+        elif v == 2:    # a later item of the same {...} replaces the bad kind
+            rules = [Rule("S", [Alt([T("Ta")], [kind, ("K", "Good")])])]
+        elif v == 3:    # the alternative's rhs is processed first: invalid assignment name / undefined sugar string
+            first = rng.choice([Assign(Ref(("n", "Ta")), "p", "fn"), Assign(Ref(("s", "zz"), ("+", None)))])
+            rules = [Rule("S", [Alt([first], [kind])])]
+        elif v == 4:    # ... but name resolution comes after all alternatives
+            rules = [Rule("S", [Alt([T("Nope")], [kind])])]
+        elif v == 5:    # a kind that is not a string is dropped without check
+            rules = [Rule("S", [Alt([T("Ta")], [("u", "kind", rng.choice([("i", "3"), ("b", True), ("f",) + FLOATS[0]]))])])]
+        elif v == 6:    # second alternative; the first one is fine and has created a helper
+            rules = [Rule("S", [Alt([Assign(Ref(("n", "Ta"), ("+", None)))]), Alt([T("Tb")], [kind]),
+                                Alt([Assign(Ref(("G", "Ta Tb")))])])]
+        elif v == 7:    # on a terminal `kind` is plain user meta-data
+            terms[0].metas = [("u", "kind", ("s", "x y"))]
+            rules = [Rule("S", [Alt([T("Ta")])])]
     return Spec(rules, terms, tag=f"broken{k}")
 
 
